@@ -107,7 +107,15 @@ fn install_panic_hook() {
             "<non-string panic>".to_string()
         };
         if let Ok(mut g) = PANIC_MSG.lock() {
-            *g = Some(format!("{} @ {}", msg, loc));
+            let mut m = format!("{} @ {}", msg, loc);
+            if std::env::var("YSIM_BT").is_ok() {
+                let bt = std::backtrace::Backtrace::force_capture().to_string();
+                for l in bt.lines().filter(|l| l.contains("yrs::") || l.contains("/repo/yrs")) {
+                    m.push('\n');
+                    m.push_str(l.trim());
+                }
+            }
+            *g = Some(m);
         }
     }));
 }
